@@ -1,0 +1,38 @@
+//go:build verif
+
+package generate
+
+import "github.com/vektah/gqlparser/v2/ast"
+
+// VerifTypeMapEvent describes one access to the generator's map from Go type
+// names to types: a lookup (get:absent, get:reuse, get:conflict), a checked
+// insertion (insert) or an unchecked write for a named fragment (write).
+// Existing* describe the entry under GoName before the access.
+type VerifTypeMapEvent struct {
+	Kind, GoName, GraphQLName string
+	Selection                 ast.SelectionSet
+	Existing                  bool
+	ExistingGraphQLName       string
+	ExistingSelection         ast.SelectionSet
+}
+
+// VerifTypeMapLog, when set, receives every access (verification harness only).
+var VerifTypeMapLog func(VerifTypeMapEvent)
+
+func (g *generator) verifTypeMapEvent(kind, goName, graphQLName string, selectionSet ast.SelectionSet) {
+	if VerifTypeMapLog == nil {
+		return
+	}
+	ev := VerifTypeMapEvent{Kind: kind, GoName: goName, GraphQLName: graphQLName, Selection: selectionSet}
+	if typ, ok := g.typeMap[goName]; ok {
+		ev.Existing = true
+		ev.ExistingGraphQLName = typ.GraphQLTypeName()
+		ev.ExistingSelection = typ.SelectionSet()
+	}
+	VerifTypeMapLog(ev)
+}
+
+// VerifSelectionsMatch exposes selectionsMatch.
+func VerifSelectionsMatch(expected, actual ast.SelectionSet) error {
+	return selectionsMatch(nil, expected, actual)
+}
